@@ -28,7 +28,7 @@ Owner(subj) ==
   ELSE IF subj \in {"CODE.DO", "CODE.DO*", "CODE.IF", "CODE.LOOP", "CODE.QUOTE", "INTVECTOR.LOOP",
                     "step:list", "step:literal", "step:empty", "step:unknown", "NOOP", "CODE.NOOP",
                     "VERIF.PROBE", "VERIF.SLEEP"}
-          \cup ExecInstr \cup IndexInstr THEN "C06"
+          \cup HarnessInstr \cup ExecInstr \cup IndexInstr THEN "C06"
   ELSE IF subj = "CODE.RAND" THEN "C12"
   ELSE IF subj \in CodeInstr THEN "C08"
   ELSE IF subj \in VectorInstr THEN "C09"
